@@ -248,8 +248,11 @@ def check(run):
     run.cov["rule"] = ("distinct = TLC-enumerated inputs: %d weak orders of 0..%d points (each under 6 strictly increasing embeddings incl. "
                        "1e300-scale, subnormal, negative, 1e15-offset, and 3 affine maps for Theil-Sen/median) + %d (weak order, split) "
                        "pairs (each also swapped) + %d Benjamini-Hochberg (family, q, family size) cases; plus %d seeded lopsided splits of "
-                       "tied series (<=24 points, exact path), %d long series (range of every p only) and Student-t grids"
-                       % (len(rcases), maxn, nsplits, len(bcases), nlop, nlong))
+                       "tied series (<=24 points, exact path), %d long series (range of every p only) and Student-t grids; beyond the bound also: "
+                       "%d samples of 8..13 noisy points (Theil-Sen, median, Mann-Kendall S exactly), %d block-structured series of 300..4000 "
+                       "points (Mann-Kendall S exactly, p ordered by the exact (|S|-1)^2/Var in multi-limb arithmetic), and the permutation "
+                       "component of the selection-adjusted p for every sample of <= 5 points and a sample of those of 6"
+                       % (len(rcases), maxn, nsplits, len(bcases), nlop, nlong, 2 * nlop, len(mkb)))
     run.cov["exhaustive"] = True
     run.assume("IEEE-754 double arithmetic of the host; integers are compared exactly, reals within 1e-12 relative of the exact rational")
     run.assume("NOT decided: accuracy of the normal tail (Mann-Kendall, Mann-Whitney beyond C(n,k) >= 2^53), of Student t and of Pettitt's "
